@@ -23,6 +23,7 @@ the handler task returns (after the loop, not skippable). Decides these shape fa
 for all paths; does not execute histories.
 One layer out: clones of the peer-map handle share the map, PeerId equality and hashing are the derived byte-wise ones, and the public listing / subscription are plain views of the map.
 Between leaving its loop (connection seen closed) and the removal the handler task has no suspension point.
+The network closes a connection only inside the three mutators (where its entry leaves the map); a stable id is the transport's own id of the connection.
 """
 TRUSTED = ["std HashMap/Entry/RwLock semantics", "tokio broadcast channel delivers in send order"]
 NOT_DECIDED = ["lagging subscribers (broadcast capacity overflow)", "interleavings below the lock granularity"]
@@ -53,6 +54,9 @@ def run(cx):
     with cx.ob("C04.1a", "R-WRITERS", "ActivePeersInner.connections is mutably accessed only by add/remove/remove_with_stable_id") as ob:
         cx.adt(INNER)
         check_field_writers(ob, prog, INNER, "connections", MUTATORS, floor=3)
+        # "no peer whose connection it has closed": a connection is closed by the network only where its entry leaves (or never
+        # enters) the map, inside the same critical section
+        check_callers(ob, prog, "anemo::connection::Connection::close", MUTATORS, crates=["anemo"], floor=3, what="Connection::close", key="close-only-with-removal")
 
     with cx.ob("C04.1b", "R-CALLERS", "peer events are sent only by send_event, called only by the three mutators") as ob:
         # every broadcast send of a PeerEvent in the workspace
@@ -278,6 +282,15 @@ def run(cx):
             ok = t[0] == "agg" and t[2].endswith("LostPeer") and is_param(t[3][1], "reason") and (
                 is_param(t[3][0], "peer_id") or term_has_call(t[3][0], "OccupiedEntry::remove_entry"))
             ob.require(ok, "rws/event", f"remove_with_stable_id: event is {show(t)}", b.path, b.loc(c.bb))
+        # ... and a stable id names one connection: it is the transport's own id of that connection (unique among the live
+        # connections of the endpoint, whatever their direction), not a number made up here
+        sb = cx.body("anemo::connection::Connection::stable_id")
+        st = strip_identity(Origins(sb).of_local(0))
+        ok = st[0] == "call" and name_matches(st[1], "quinn::connection::Connection::stable_id") and len(st[2]) == 1
+        if ok:
+            a0 = strip_identity(st[2][0])
+            ok = a0[0] == "field" and a0[2] == "inner" and is_param(strip_identity(a0[1]), "self")
+        ob.require(ok, "stable-id/is-the-transports", f"Connection::stable_id returns {show(st)[:120]} (must be quinn's stable_id of this connection)", sb.path)
 
     # ---- rule 3: snapshot + subscribe in one critical section ------------------------------------
     with cx.ob("C04.3", "R-MUSTPASS", "subscribe(): snapshot and receiver are taken under one read guard") as ob:
